@@ -1008,6 +1008,12 @@ fn c29_touched(rig: &Rig, etag: bool) -> Report {
     rep
 }
 
+fn fnv_str(s: &str) -> u64 {
+    let mut h = 0xcbf29ce484222325u64;
+    for b in s.bytes() { h ^= b as u64; h = h.wrapping_mul(0x100000001b3); }
+    h
+}
+
 fn c29_case(case: &FbCase) -> Report {
     let mut rep = Report::new("rrdp");
     let row = &case.row;
@@ -1057,7 +1063,13 @@ fn c29_case(case: &FbCase) -> Report {
                 let idx = rig.srv.publish(more);
                 FaultPlan { delta: Some((rig.srv.version(idx).serial, FileFault::Http(404))), ..Default::default() }
             }
-            ("notify_fails", _) => FaultPlan { notify_status: Some(500), ..Default::default() },
+            // the notification request fails: server errors, client errors, and redirects the client does not follow
+            // (the interceptor answers where the HTTP client would hand back the 3xx of a refused redirect)
+            ("notify_fails", _) => {
+                let statuses = [500u16, 302, 404, 307, 503, 301, 308, 403];
+                let pick = statuses[(fnv_str(&row.to_string()) as usize + k) % statuses.len()];
+                FaultPlan { notify_status: Some(pick), ..Default::default() }
+            }
             // a good notification; the snapshot it needs fails (with a copy: a new session, so that no delta can be tried)
             ("snapshot_fails", "none") => FaultPlan { snapshot: FileFault::Http(404), ..Default::default() },
             ("snapshot_fails", _) => { rig.srv.new_session(1, more); FaultPlan { snapshot: FileFault::Http(404), ..Default::default() } }
